@@ -129,6 +129,73 @@ theorem body_inside_span (a : Attr) (ps : List Param) (customs : List Custom) (o
     · simp [depthAfter, bodyEvent, depth_append, depth_events _ ht 1 (by omega)]
     · simp [depthAfter, bodyEvent, depth_append, depth_events _ ht 1 (by omega), depth_polls]
 
+def isClose : E → Bool | .close => true | _ => false
+def isEnter : E → Bool | .enter => true | _ => false
+def isPoll : E → Bool | .poll => true | _ => false
+
+theorem tail_counts (a : Attr) (o : Outcome) :
+    (tailEvents a o).countP isClose = 0 ∧ (tailEvents a o).countP isEnter = 0 ∧ (tailEvents a o).countP isPoll = 0 ∧
+    (tailEvents a o).length ≤ 1 := by
+  unfold tailEvents
+  cases o <;> simp only <;> (repeat' split) <;> simp [isClose, isEnter, isPoll]
+
+theorem counts_replicate_polls (n : Nat) :
+    ((List.replicate n [E.poll, E.enter, E.exit]).flatten).countP isClose = 0 ∧
+    ((List.replicate n [E.poll, E.enter, E.exit]).flatten).countP isEnter = n ∧
+    ((List.replicate n [E.poll, E.enter, E.exit]).flatten).countP isPoll = n := by
+  induction n with
+  | zero => simp
+  | succ k ih =>
+    obtain ⟨h1, h2, h3⟩ := ih
+    simp only [List.replicate_succ, List.flatten_cons, List.countP_append, h1, h2, h3]
+    simp [List.countP_cons, isClose, isEnter, isPoll]; omega
+
+theorem last_of_suffix (l pre : List E) (h : l = pre ++ [E.close]) : l.getLast? = some .close := by subst h; simp
+
+/-- **C17.closed_once_at_the_end** — every call (sync, or async with any number of pending points; any outcome incl. panic)
+closes its span exactly once, and the close is the LAST thing the collector hears of the call: after the body, the ret / err
+event and the final exit -/
+theorem closed_once_at_the_end (a : Attr) (ps : List Param) (customs : List Custom) (o : Outcome) (yields : Nat) :
+    (syncLog a ps customs o).countP isClose = 1 ∧ (syncLog a ps customs o).getLast? = some .close ∧
+    (asyncLog a ps customs o yields).countP isClose = 1 ∧ (asyncLog a ps customs o yields).getLast? = some .close := by
+  obtain ⟨hc, _, _, _⟩ := tail_counts a o
+  refine ⟨?_, ?_, ?_, ?_⟩
+  · simp [syncLog, List.countP_append, List.countP_cons, isClose, bodyEvent, hc]
+  · exact last_of_suffix _ ([.new (newLine a ps customs), .enter, bodyEvent a "body"] ++ tailEvents a o ++ [.exit]) (by simp [syncLog])
+  · unfold asyncLog
+    split
+    · simp [List.countP_append, List.countP_cons, isClose, bodyEvent, hc]
+    · simp [List.countP_append, List.countP_cons, isClose, bodyEvent, hc, (counts_replicate_polls _).1]
+  · unfold asyncLog
+    split
+    · exact last_of_suffix _ ([.poll, .new (newLine a ps customs), .enter, bodyEvent a "body"] ++ tailEvents a o ++ [.exit, .enter, .exit]) (by simp)
+    · exact last_of_suffix _ ([.poll, .new (newLine a ps customs), .enter, bodyEvent a "body", .exit] ++
+        (List.replicate (yields - 1) [E.poll, .enter, .exit]).flatten ++
+        [.poll, .enter, bodyEvent a "after"] ++ tailEvents a o ++ [.exit, .enter, .exit]) (by simp)
+
+/-- **C17.entered_once_per_poll** — an async function polled `yields + 1` times is polled exactly that often and its span is
+entered exactly once per poll plus once around the drop of the future (never held across a pending point); a sync function's
+span is entered exactly once -/
+theorem entered_once_per_poll (a : Attr) (ps : List Param) (customs : List Custom) (o : Outcome) (yields : Nat) :
+    (syncLog a ps customs o).countP isEnter = 1 ∧
+    (asyncLog a ps customs o yields).countP isPoll = yields + 1 ∧
+    (asyncLog a ps customs o yields).countP isEnter = yields + 2 := by
+  obtain ⟨_, he, hp, _⟩ := tail_counts a o
+  refine ⟨?_, ?_, ?_⟩
+  · simp [syncLog, List.countP_append, List.countP_cons, isEnter, bodyEvent, he]
+  · unfold asyncLog
+    split
+    · rename_i h; simp [List.countP_append, List.countP_cons, isPoll, bodyEvent, hp, h]
+    · simp [List.countP_append, List.countP_cons, isPoll, bodyEvent, hp, (counts_replicate_polls _).2.2]; omega
+  · unfold asyncLog
+    split
+    · rename_i h; simp [List.countP_append, List.countP_cons, isEnter, bodyEvent, he, h]
+    · simp [List.countP_append, List.countP_cons, isEnter, bodyEvent, he, (counts_replicate_polls _).2.1]; omega
+
+/-- **C17.at_most_one_tail_event** — a call adds at most one ret / err event to what the body itself emits, and a panic none -/
+theorem at_most_one_tail_event (a : Attr) (o : Outcome) : (tailEvents a o).length ≤ 1 ∧ tailEvents a .panic = [] :=
+  ⟨(tail_counts a o).2.2.2, rfl⟩
+
 /-- **C17.ret_err_events** — which event the configured `ret` / `err` produce: `ret` shows the value (Debug by default),
 `err` the error (Display by default, level ERROR by default); on a `Result` without `err` the whole Result is shown; a panic
 produces neither -/
